@@ -218,6 +218,8 @@ def validate_det(ctx, module, cfg, trace_path, consts=None, timeout=900, name=No
     c = dict(consts or {})
     c["TraceFile"] = '"%s"' % os.path.basename(trace_path)
     r = tlc(ctx, module, cfg, files=[trace_path], workers=1, timeout=timeout, consts=c, name=name)
+    ctx.trace_states = getattr(ctx, "trace_states", 0) + r["distinct"]
+    ctx.trace_transitions = getattr(ctx, "trace_transitions", 0) + r["generated"]
     if not r["ok"]:
         raise Inconclusive("trace validation failed to run:\n" + "\n".join(r["out"].splitlines()[-40:]))
     if r["depth"] != nlines + 1:
@@ -296,6 +298,8 @@ def validate_search(ctx, module, cfg, trace_path, consts=None, timeout=900, name
     c["TraceFile"] = '"%s"' % os.path.basename(trace_path)
     r = tlc(ctx, module, cfg, files=[trace_path], workers=1, timeout=timeout, consts=c, name=name, dfs=True,
             extra=["-noGenerateSpecTE"])
+    ctx.trace_states = getattr(ctx, "trace_states", 0) + r["distinct"]
+    ctx.trace_transitions = getattr(ctx, "trace_transitions", 0) + r["generated"]
     mx = [int(x) for x in printed(r["out"], "MAXI|")]
     if r["violated"] == "NotDone":
         return None
@@ -404,8 +408,14 @@ def report_failure(ctx, what, tags, payload):
 def write_evidence(ctx, coverage, level="model_checking"):
     os.makedirs(EVID, exist_ok=True)
     cov = dict(coverage)
-    cov.setdefault("states", max(ctx.states, 0))
-    cov.setdefault("transitions", max(ctx.transitions, 0))
+    # states/transitions: TLC's numbers for the design configs of this run plus the states TLC explored
+    # while validating the recorded traces (reported separately as well)
+    ts, tt = getattr(ctx, "trace_states", 0), getattr(ctx, "trace_transitions", 0)
+    cov.setdefault("design_states", ctx.states)
+    cov.setdefault("design_transitions", ctx.transitions)
+    cov.setdefault("trace_validation_states", ts)
+    cov.setdefault("states", ctx.states + ts)
+    cov.setdefault("transitions", ctx.transitions + tt)
     cov.setdefault("traces_validated_against_impl", ctx.traces)
     cov.setdefault("tlc_cmds", ctx.tlc_cmds)
     cov.setdefault("known_findings_seen", [k[0] for k in ctx.known])
